@@ -195,4 +195,345 @@ theorem take_one_cons (b0 : UInt8) (t : Bytes) {k : Nat} (hk : 1 ≤ k) :
   match k, hk with
   | k + 1, _ => simp
 
+theorem maximal_one_of_all {t : Bytes} (ht : t ≠ []) (h : ∀ k', 1 < k' → k' ≤ t.length → ¬ PrefixOfWellFormed (t.take k')) :
+    IsMaximalSubpart t 1 :=
+  ⟨Nat.le_refl _, List.length_pos_iff.mpr ht, Or.inl rfl, h⟩
+
+/-- **an `error!()` of the loop body cuts off exactly the maximal subpart** -/
+theorem sufStep_err_maximal (t : Bytes) (k : Nat) (ht : t ≠ []) (h : sufStep t = .err k) : IsMaximalSubpart t k := by
+  match t, ht with
+  | b0 :: t', _ =>
+    by_cases c1 : b0.toNat < 0x80
+    · simp [sufStep, c1] at h
+    · have c1' : ¬ b0.toNat < 128 := c1
+      by_cases c2 : b0.toNat < 0xC2
+      · rw [sufStep_invalid_lead b0 t' (by omega) (Or.inl c2)] at h
+        cases h
+        apply maximal_one_of_all (by simp)
+        intro k' hk' _
+        rw [take_one_cons _ _ (by omega)]
+        exact not_prefix_bad_lead b0 _ (by omega) (Or.inl c2)
+      · by_cases c3 : b0.toNat < 0xE0
+        · have hw := width_two b0 (by omega) c3
+          match t', h with
+          | [], h =>
+            simp [sufStep, c1', hw, notContTag_eq, isCont_zero] at h; subst h
+            exact maximal_one_of_all (by simp) (by intro k' h1 h2; simp at h2; omega)
+          | b1 :: t'', h =>
+            by_cases k1 : isCont b1 = true
+            · simp [sufStep, c1', hw, notContTag_eq, k1] at h
+            · have k1' : isCont b1 = false := by simpa using k1
+              simp [sufStep, c1', hw, notContTag_eq, k1'] at h; subst h
+              apply maximal_one_of_all (by simp)
+              intro k' hk' _
+              rw [take_two_cons _ _ _ (by omega)]
+              exact not_prefix_2 b0 b1 _ (by omega) c3 k1'
+        · by_cases c4 : b0.toNat < 0xF0
+          · have hw := width_three b0 (by omega) c4
+            have e3 := fun s => bad3_eq b0 s (Nat.le_of_not_lt c3) c4
+            match t', h with
+            | [], h =>
+              simp [sufStep, c1', hw, bad3_zero] at h; subst h
+              exact maximal_one_of_all (by simp) (by intro k' h1 h2; simp at h2; omega)
+            | [b1], h =>
+              by_cases k1 : inRange (secondLo b0.toNat) (secondHi b0.toNat) b1 = true
+              · simp [sufStep, c1', hw, e3, k1, notContTag_eq, isCont_zero] at h; subst h
+                refine ⟨by omega, by simp, Or.inr ?_, by intro k' h1 h2; simp at h2; omega⟩
+                simpa using prefix_3 b0 b1 (by omega) c4 k1
+              · have k1' : inRange (secondLo b0.toNat) (secondHi b0.toNat) b1 = false := by simpa using k1
+                simp [sufStep, c1', hw, e3, k1'] at h; subst h
+                apply maximal_one_of_all (by simp)
+                intro k' hk' _
+                rw [take_two_cons _ _ _ (by omega)]
+                exact not_prefix_3a b0 b1 _ (by omega) c4 k1'
+            | b1 :: b2 :: t'', h =>
+              by_cases k1 : inRange (secondLo b0.toNat) (secondHi b0.toNat) b1 = true
+              · by_cases k2 : isCont b2 = true
+                · simp [sufStep, c1', hw, e3, k1, k2, notContTag_eq] at h
+                · have k2' : isCont b2 = false := by simpa using k2
+                  simp [sufStep, c1', hw, e3, k1, k2', notContTag_eq] at h; subst h
+                  refine ⟨by omega, by simp, Or.inr ?_, ?_⟩
+                  · simpa using prefix_3 b0 b1 (by omega) c4 k1
+                  · intro k' hk' _
+                    rw [take_three_cons _ _ _ _ (by omega)]
+                    exact not_prefix_3b b0 b1 b2 _ (by omega) c4 k2'
+              · have k1' : inRange (secondLo b0.toNat) (secondHi b0.toNat) b1 = false := by simpa using k1
+                simp [sufStep, c1', hw, e3, k1'] at h; subst h
+                apply maximal_one_of_all (by simp)
+                intro k' hk' _
+                rw [take_two_cons _ _ _ (by omega)]
+                exact not_prefix_3a b0 b1 _ (by omega) c4 k1'
+          · by_cases c5 : b0.toNat < 0xF5
+            · have hw := width_four b0 (by omega) c5
+              have e4 := fun s => bad4_eq b0 s (Nat.le_of_not_lt c4) c5
+              match t', h with
+              | [], h =>
+                simp [sufStep, c1', hw, bad4_zero] at h; subst h
+                exact maximal_one_of_all (by simp) (by intro k' h1 h2; simp at h2; omega)
+              | [b1], h =>
+                by_cases k1 : inRange (secondLo b0.toNat) (secondHi b0.toNat) b1 = true
+                · simp [sufStep, c1', hw, e4, k1, notContTag_eq, isCont_zero] at h; subst h
+                  refine ⟨by omega, by simp, Or.inr ?_, by intro k' h1 h2; simp at h2; omega⟩
+                  simpa using prefix_4_2 b0 b1 (by omega) c5 k1
+                · have k1' : inRange (secondLo b0.toNat) (secondHi b0.toNat) b1 = false := by simpa using k1
+                  simp [sufStep, c1', hw, e4, k1'] at h; subst h
+                  apply maximal_one_of_all (by simp)
+                  intro k' hk' _
+                  rw [take_two_cons _ _ _ (by omega)]
+                  exact not_prefix_4a b0 b1 _ (by omega) c5 k1'
+              | [b1, b2], h =>
+                by_cases k1 : inRange (secondLo b0.toNat) (secondHi b0.toNat) b1 = true
+                · by_cases k2 : isCont b2 = true
+                  · simp [sufStep, c1', hw, e4, k1, k2, notContTag_eq, isCont_zero] at h; subst h
+                    refine ⟨by omega, by simp, Or.inr ?_, by intro k' h1 h2; simp at h2; omega⟩
+                    simpa using prefix_4_3 b0 b1 b2 (by omega) c5 k1 k2
+                  · have k2' : isCont b2 = false := by simpa using k2
+                    simp [sufStep, c1', hw, e4, k1, k2', notContTag_eq] at h; subst h
+                    refine ⟨by omega, by simp, Or.inr ?_, ?_⟩
+                    · simpa using prefix_4_2 b0 b1 (by omega) c5 k1
+                    · intro k' hk' _
+                      rw [take_three_cons _ _ _ _ (by omega)]
+                      exact not_prefix_4b b0 b1 b2 _ (by omega) c5 k2'
+                · have k1' : inRange (secondLo b0.toNat) (secondHi b0.toNat) b1 = false := by simpa using k1
+                  simp [sufStep, c1', hw, e4, k1'] at h; subst h
+                  apply maximal_one_of_all (by simp)
+                  intro k' hk' _
+                  rw [take_two_cons _ _ _ (by omega)]
+                  exact not_prefix_4a b0 b1 _ (by omega) c5 k1'
+              | b1 :: b2 :: b3 :: t'', h =>
+                by_cases k1 : inRange (secondLo b0.toNat) (secondHi b0.toNat) b1 = true
+                · by_cases k2 : isCont b2 = true
+                  · by_cases k3 : isCont b3 = true
+                    · simp [sufStep, c1', hw, e4, k1, k2, k3, notContTag_eq] at h
+                    · have k3' : isCont b3 = false := by simpa using k3
+                      simp [sufStep, c1', hw, e4, k1, k2, k3', notContTag_eq] at h; subst h
+                      refine ⟨by omega, by simp, Or.inr ?_, ?_⟩
+                      · simpa using prefix_4_3 b0 b1 b2 (by omega) c5 k1 k2
+                      · intro k' hk' _
+                        rw [take_four_cons _ _ _ _ _ (by omega)]
+                        exact not_prefix_4c b0 b1 b2 b3 _ (by omega) c5 k3'
+                  · have k2' : isCont b2 = false := by simpa using k2
+                    simp [sufStep, c1', hw, e4, k1, k2', notContTag_eq] at h; subst h
+                    refine ⟨by omega, by simp, Or.inr ?_, ?_⟩
+                    · simpa using prefix_4_2 b0 b1 (by omega) c5 k1
+                    · intro k' hk' _
+                      rw [take_three_cons _ _ _ _ (by omega)]
+                      exact not_prefix_4b b0 b1 b2 _ (by omega) c5 k2'
+                · have k1' : inRange (secondLo b0.toNat) (secondHi b0.toNat) b1 = false := by simpa using k1
+                  simp [sufStep, c1', hw, e4, k1'] at h; subst h
+                  apply maximal_one_of_all (by simp)
+                  intro k' hk' _
+                  rw [take_two_cons _ _ _ (by omega)]
+                  exact not_prefix_4a b0 b1 _ (by omega) c5 k1'
+            · rw [sufStep_invalid_lead b0 t' (by omega) (Or.inr (by omega))] at h
+              cases h
+              apply maximal_one_of_all (by simp)
+              intro k' hk' _
+              rw [take_one_cons _ _ (by omega)]
+              exact not_prefix_bad_lead b0 _ (by omega) (Or.inr (by omega))
+
+/-! ## the scan, the chunk loop and the reference decoder -/
+
+theorem RefLossy_nil_inv {o : Bytes} (h : RefLossy [] o) : o = [] := by
+  generalize hv : ([] : Bytes) = v at h
+  cases h with
+  | nil => rfl
+  | scalar c t out _ =>
+    have := congrArg List.length hv
+    have := encChar_length_pos c
+    simp only [List.length_nil, List.length_append] at *; omega
+  | broken t out k hne => exact absurd hv.symm hne
+
+theorem RefLossy_append_valid (l : List Char) {t out : Bytes} (h : RefLossy t out) :
+    RefLossy (encode l ++ t) (encode l ++ out) := by
+  induction l with
+  | nil => simpa using h
+  | cons c l ih =>
+    rw [encode_cons, List.append_assoc, List.append_assoc]
+    exact RefLossy.scalar c _ _ ih
+
+theorem RefLossy_valid (l : List Char) : RefLossy (encode l) (encode l) := by
+  have := RefLossy_append_valid l RefLossy.nil
+  simpa using this
+
+/-- shape of what the `while` loop returns when started at `i`: a run of well-formed scalars
+`source[i..i_]`, then either the end of the input or an `error!()` whose broken part
+`source[i_..j]` is the maximal subpart there -/
+theorem lossyScan_shape (src : Bytes) : ∀ (fuel i : Nat), i ≤ src.length → src.length - i < fuel →
+    ∃ ch, lossyScan src fuel i = some ch ∧
+      ((∃ l, src.drop i = encode l ∧ ch = ⟨src, [], []⟩) ∨
+       (∃ l i_ k, src.drop i = encode l ++ src.drop i_ ∧ i_ = i + (encode l).length ∧ i_ < src.length ∧
+          sufStep (src.drop i_) = .err k ∧ ch = ⟨src.take i_, (src.drop i_).take k, src.drop (i_ + k)⟩)) := by
+  intro fuel
+  induction fuel with
+  | zero => intro i _ h; omega
+  | succ f ih =>
+    intro i hi hf
+    by_cases hlt : i < src.length
+    · simp only [lossyScan, hlt, if_true, lossyStep_eq src i hlt]
+      cases hs : sufStep (src.drop i) with
+      | adv n =>
+        obtain ⟨c, hc⟩ := (sufStep_decode (src.drop i)).1 n hs
+        obtain ⟨hd, hn⟩ := decodeHead_some hc
+        have hpos := encChar_length_pos c
+        have hle : i + n ≤ src.length := by
+          have := congrArg List.length hd
+          simp only [List.length_drop, List.length_append] at this; omega
+        simp only []
+        obtain ⟨ch, hch, hshape⟩ := ih (i + n) hle (by omega)
+        refine ⟨ch, hch, ?_⟩
+        have hdd : (src.drop i).drop n = src.drop (i + n) := by rw [List.drop_drop]
+        rcases hshape with ⟨l, hl, rfl⟩ | ⟨l, i_, k, hl, hi_, hlt_, hk, rfl⟩
+        · left; exact ⟨c :: l, by rw [hd, hdd, hl, encode_cons], rfl⟩
+        · right
+          refine ⟨c :: l, i_, k, ?_, ?_, hlt_, hk, rfl⟩
+          · rw [hd, hdd, hl, encode_cons, List.append_assoc]
+          · rw [hi_, encode_cons, List.length_append, ← hn]; omega
+      | err k =>
+        simp only []
+        refine ⟨_, rfl, Or.inr ⟨[], i, k, by simp, by simp, hlt, hs, ?_⟩⟩
+        simp only [Nat.add_sub_cancel_left]
+    · have hi' : i = src.length := by omega
+      simp only [lossyScan, hlt, if_false]
+      exact ⟨_, rfl, Or.inl ⟨[], by simp [hi'], rfl⟩⟩
+
+/-- one chunk, read as the reference decoder reads it -/
+theorem lossyNext_ref {src : Bytes} (hne : src ≠ []) :
+    ∃ ch, lossyNext src = some ch ∧ ch.rest.length < src.length ∧
+      ((ch.valid = src ∧ ch.broken = [] ∧ Valid src) ∨
+       (ch.broken ≠ [] ∧ ch.valid.length < src.length ∧
+          ∀ out, RefLossy ch.rest out → RefLossy src (ch.valid ++ REPLACEMENT ++ out))) := by
+  obtain ⟨ch, hch, hshape⟩ := lossyScan_shape src (src.length + 1) 0 (Nat.zero_le _) (by omega)
+  have hpos : 0 < src.length := List.length_pos_iff.mpr hne
+  refine ⟨ch, by simp only [lossyNext, hne, if_false]; exact hch, ?_⟩
+  rcases hshape with ⟨l, hl, rfl⟩ | ⟨l, i_, k, hl, hi_, hlt_, hk, rfl⟩
+  · simp only [List.drop_zero] at hl
+    exact ⟨by simpa using hpos, Or.inl ⟨rfl, rfl, ⟨l, hl⟩⟩⟩
+  · simp only [List.drop_zero, Nat.zero_add] at hl hi_
+    have hne_ : src.drop i_ ≠ [] := by
+      intro h; have := congrArg List.length h; simp at this; omega
+    have hk1 := sufStep_err_pos hne_ hk
+    have hmax := sufStep_err_maximal _ k hne_ hk
+    have hnone := (sufStep_decode _).2 k hk
+    have htake : src.take i_ = encode l := by
+      have := congrArg (List.take i_) hl
+      rw [List.take_left' hi_.symm] at this; exact this
+    refine ⟨by simp only [List.length_drop]; omega, Or.inr ⟨?_, by simp only [List.length_take]; omega, ?_⟩⟩
+    · intro h; have := congrArg List.length h
+      simp only [List.length_take, List.length_drop, List.length_nil] at this; omega
+    · intro out hout
+      rw [htake]
+      conv => lhs; rw [hl]
+      rw [List.append_assoc]
+      apply RefLossy_append_valid
+      apply RefLossy.broken _ _ k hne_ hnone hmax
+      rw [List.drop_drop]; exact hout
+
+theorem lossyRest_ref : ∀ (fuel : Nat) (src res : Bytes), src.length < fuel →
+    ∃ o, lossyRest fuel src res = .ok (res ++ o) ∧ RefLossy src o := by
+  intro fuel
+  induction fuel with
+  | zero => intro src res h; omega
+  | succ f ih =>
+    intro src res hf
+    by_cases hne : src = []
+    · subst hne; exact ⟨[], by simp [lossyRest, lossyNext], RefLossy.nil⟩
+    · obtain ⟨ch, hch, hlt, hcase⟩ := lossyNext_ref hne
+      simp only [lossyRest, hch]
+      rcases hcase with ⟨hv, hb, ⟨l, hl⟩⟩ | ⟨hb, -, href⟩
+      · obtain ⟨o, ho, hro⟩ := ih ch.rest (pushStr res ch.valid) (by omega)
+        simp only [hb, ne_eq, not_true_eq_false, if_false]
+        -- the chunk was the whole (valid) rest of the input: the iterator is exhausted next
+        have hrest : ch.rest = [] := by
+          obtain ⟨ch', hch', hshape⟩ := lossyScan_shape src (src.length + 1) 0 (Nat.zero_le _) (by omega)
+          have hEq : ch = ch' := by
+            have : lossyNext src = some ch' := by simp only [lossyNext, hne, if_false]; exact hch'
+            rw [hch] at this; exact Option.some.inj this
+          subst hEq
+          rcases hshape with ⟨_, _, rfl⟩ | ⟨l', i_, k, _, _, hlt_, _, rfl⟩
+          · rfl
+          · simp only at hv
+            have := congrArg List.length hv
+            simp only [List.length_take] at this; omega
+        rw [hrest] at ho hro
+        refine ⟨ch.valid ++ o, ?_, ?_⟩
+        · rw [hrest, ho]; simp [pushStr, List.append_assoc]
+        · rw [RefLossy_nil_inv hro, hv, hl]; simpa using RefLossy_valid l
+      · obtain ⟨o, ho, hro⟩ := ih ch.rest (pushStr (pushStr res ch.valid) REPLACEMENT) (by omega)
+        simp only [hb, ne_eq, not_false_eq_true, if_true]
+        refine ⟨ch.valid ++ REPLACEMENT ++ o, ?_, href o hro⟩
+        rw [ho]; simp [pushStr, List.append_assoc]
+
+/-- **`lossy_spec`**: `from_utf8_lossy_in` computes the reference decoding ("U+FFFD per maximal
+subpart", defined from Table 3-7 without the width table). -/
+theorem fromUtf8Lossy_spec (dbg : Bool) (v : Bytes) : ∃ out, fromUtf8Lossy dbg v = .ok out ∧ RefLossy v out := by
+  by_cases hne : v = []
+  · subst hne; exact ⟨[], by simp [fromUtf8Lossy, lossyNext], RefLossy.nil⟩
+  · obtain ⟨ch, hch, hlt, hcase⟩ := lossyNext_ref hne
+    simp only [fromUtf8Lossy, hch]
+    rcases hcase with ⟨hv, hb, ⟨l, hl⟩⟩ | ⟨hb, hvl, href⟩
+    · have hlen : ch.valid.length = v.length := by rw [hv]
+      simp only [hlen, if_true, hb]
+      refine ⟨v, by simp, ?_⟩
+      rw [hl]; exact RefLossy_valid l
+    · have hlen : ¬ ch.valid.length = v.length := by omega
+      simp only [hlen, if_false, hb, ne_eq, not_false_eq_true, if_true]
+      obtain ⟨o, ho, hro⟩ := lossyRest_ref (v.length + 1) ch.rest (pushStr (pushStr [] ch.valid) REPLACEMENT) (by omega)
+      refine ⟨_, ho, ?_⟩
+      have := href o hro
+      simpa [pushStr, List.append_assoc] using this
+
+/-! ## the reference decoder is a function -/
+
+theorem maximal_unique {t : Bytes} {k₁ k₂ : Nat} (h₁ : IsMaximalSubpart t k₁) (h₂ : IsMaximalSubpart t k₂) : k₁ = k₂ := by
+  obtain ⟨a1, a2, a3, a4⟩ := h₁
+  obtain ⟨b1, b2, b3, b4⟩ := h₂
+  rcases Nat.lt_trichotomy k₁ k₂ with h | h | h
+  · rcases b3 with rfl | hp
+    · omega
+    · exact absurd hp (a4 k₂ h b2)
+  · exact h
+  · rcases a3 with rfl | hp
+    · omega
+    · exact absurd hp (b4 k₁ h a2)
+
+theorem RefLossy_functional : ∀ {v o₁ o₂ : Bytes}, RefLossy v o₁ → RefLossy v o₂ → o₁ = o₂ := by
+  intro v o₁ o₂ h₁
+  induction h₁ generalizing o₂ with
+  | nil => intro h₂; exact (RefLossy_nil_inv h₂).symm
+  | scalar c t out _ ih =>
+    intro h₂
+    generalize hv : encChar c ++ t = v at h₂
+    cases h₂ with
+    | nil =>
+      have := congrArg List.length hv
+      have := encChar_length_pos c
+      simp only [List.length_nil, List.length_append] at *; omega
+    | scalar c' t' out' h' =>
+      have hd := decodeHead_enc c t
+      rw [hv, decodeHead_enc c' t'] at hd
+      simp only [Option.some.injEq, Prod.mk.injEq] at hd
+      obtain ⟨rfl, -⟩ := hd
+      have : t = t' := List.append_cancel_left hv
+      subst this
+      rw [ih h']
+    | broken _ out' k hne hnone =>
+      rw [← hv, decodeHead_enc] at hnone; cases hnone
+  | broken t out k hne hnone hmax _ ih =>
+    intro h₂
+    generalize hv : t = v at h₂
+    cases h₂ with
+    | nil => exact absurd hv hne
+    | scalar c t' out' h' => rw [hv, decodeHead_enc] at hnone; cases hnone
+    | broken _ out' k' _ _ hmax' h' =>
+      subst hv
+      have := maximal_unique hmax hmax'
+      subst this
+      rw [ih h']
+
+/-- `lossy_spec` as an equation: the output is *the* reference decoding -/
+theorem fromUtf8Lossy_eq_ref (dbg : Bool) (v out : Bytes) (h : RefLossy v out) : fromUtf8Lossy dbg v = .ok out := by
+  obtain ⟨o, ho, hr⟩ := fromUtf8Lossy_spec dbg v
+  rw [ho, RefLossy_functional hr h]
+
 end Bump.Str
